@@ -116,10 +116,20 @@ func genAcceptCase(t *rapid.T) acceptCase {
 			}
 			am := rapid.SampledFrom([]string{"", "#", "$", "@", "<", ">", "*", "{", "}"}).Draw(t, "am")
 			bm := rapid.SampledFrom([]string{"", "#", "$", "@", "<", ">", "*", "{", "}"}).Draw(t, "bm")
+			mn := strings.ToLower(op)
+			switch rapid.IntRange(0, 5).Draw(t, "spell") {
+			case 0:
+				mn = strings.ToUpper(op)
+			case 1:
+				// letters whose case folding is irregular: dotted capital I, dotless i, long s, Kelvin sign
+				mn = strings.NewReplacer("I", "\u0130", "i", "\u0130").Replace(strings.ToUpper(op))
+			case 2:
+				mn = strings.NewReplacer("i", "\u0131", "s", "\u017f", "k", "\u212a").Replace(mn)
+			}
 			if rapid.IntRange(0, 4).Draw(t, "lone") == 0 {
-				fmt.Fprintf(&sb, "%s %s%d\n", strings.ToLower(op), am, rapid.IntRange(0, 9).Draw(t, "a"))
+				fmt.Fprintf(&sb, "%s %s%d\n", mn, am, rapid.IntRange(0, 9).Draw(t, "a"))
 			} else {
-				fmt.Fprintf(&sb, "%s %s%d, %s%d\n", strings.ToLower(op), am, rapid.IntRange(0, 9).Draw(t, "a"), bm, rapid.IntRange(0, 9).Draw(t, "b"))
+				fmt.Fprintf(&sb, "%s %s%d, %s%d\n", mn, am, rapid.IntRange(0, 9).Draw(t, "a"), bm, rapid.IntRange(0, 9).Draw(t, "b"))
 			}
 		}
 		c.Text = sb.String()
